@@ -110,8 +110,19 @@ func dstOverlay(srcPath, dstPath string, dstStat os.FileInfo) map[string][]byte 
 		return nil
 	}
 	dstAbs, err := filepath.Abs(dstPath)
-	if err != nil || filepath.Dir(srcAbs) != filepath.Dir(dstAbs) {
+	if err != nil {
 		return nil
+	}
+	// The two directories may be spelled differently (a symbolic link on the way):
+	// compare the directories themselves, and name the file the way the setup file's
+	// directory is named, which is how the package loader will see it.
+	if filepath.Dir(srcAbs) != filepath.Dir(dstAbs) {
+		srcDir, err1 := os.Stat(filepath.Dir(srcAbs))
+		dstDir, err2 := os.Stat(filepath.Dir(dstAbs))
+		if err1 != nil || err2 != nil || !os.SameFile(srcDir, dstDir) {
+			return nil
+		}
+		dstAbs = filepath.Join(filepath.Dir(srcAbs), filepath.Base(dstAbs))
 	}
 	file, err := parser.ParseFile(token.NewFileSet(), srcPath, nil, parser.PackageClauseOnly)
 	if err != nil || file.Name == nil {
